@@ -272,6 +272,7 @@ def run(ctx: Ctx):
                f"error_rate is called with {kw}; --costs is documented as INS DEL SUB", rel, c.lineno, sample=kw)
     _per_utterance_divisors(ctx)
     _inferred_length_nonnegative(ctx)
+    _token_tables_and_segments(ctx)
     plumbing(ctx, "S1")
     return dict(
         explanation=(
@@ -394,10 +395,75 @@ def _inferred_length_nonnegative(ctx: Ctx):
            rel, n.lineno)
 
 
+
+def _token_tables_and_segments(ctx: Ctx):
+    """S8 (a) A token table is (R, 3): column 0 is the token id, columns 1 and 2 are the boundaries with -1 = missing. A sign
+    test that decides 'boundaries missing' must read the boundary columns only; applied to the whole table it also rejects a
+    negative token id (alignments may label frames -1, and ali -> token -> ali must give them back).
+    (b) Segment lengths are the run lengths of the STORED alignment; excluded ids drop whole runs afterwards. Dropping the
+    excluded frames first fuses the two runs around an excluded stretch into one longer segment."""
+    col, pkg = ctx.col, ctx.pkg
+    rel = pkg.module(MOD).relname
+    n_tab = 0
+    for f in ctx.owned():
+        if f.parent is not None or f.module.relname != rel:
+            continue
+        rd = None
+        # 3-column tables: a name loaded from disk that is read both at column 0 and at a boundary column
+        cols = {}
+        for n in own_nodes(f.node):
+            if isinstance(n, ast.Subscript) and isinstance(n.value, ast.Name) and isinstance(n.slice, ast.Tuple) and len(n.slice.elts) == 2:
+                last = n.slice.elts[1]
+                k = None
+                if isinstance(last, ast.Constant) and isinstance(last.value, int):
+                    k = "id" if last.value == 0 else "bound"
+                elif isinstance(last, ast.Slice) and isinstance(last.lower, ast.Constant) and last.lower.value == 1:
+                    k = "bound"
+                if k:
+                    cols.setdefault(n.value.id, set()).add(k)
+        tables = {nm for nm, ks in cols.items() if ks == {"id", "bound"}}
+        if not tables:
+            continue
+        from sa.defuse import ReachingDefs
+        rd = ReachingDefs(f.node)
+        for n in own_nodes(f.node):
+            if not (isinstance(n, ast.Compare) and len(n.ops) == 1 and isinstance(n.ops[0], (ast.Lt, ast.GtE))
+                    and isinstance(n.comparators[0], ast.Constant) and n.comparators[0].value == 0):
+                continue
+            left = n.left
+            if isinstance(left, ast.Name) and left.id in tables and any(
+                    isinstance(d.value, ast.Call) and call_name(d.value) == "torch.load" for d in rd.defs_of(left)):
+                n_tab += 1
+                col.ob("G14", "S8", f"{rel}::{f.qualname}::sign-test-reads-the-boundary-columns", False,
+                       f"`{u(n)}` tests the sign of the whole token table `{left.id}`: column 0 is the token id, whose sign means "
+                       f"nothing - a negative label (alignments use -1 for unlabelled frames) is reported as a missing boundary",
+                       rel, n.lineno)
+            elif isinstance(left, ast.Subscript) and isinstance(left.value, ast.Name) and left.value.id in tables:
+                n_tab += 1
+    col.count("token_table_sign_tests", n_tab)
+    col.floor("token_table_sign_tests", n_tab, 2)
+    f = pkg.func(f"{MOD}::_print_torch_ali_data_dir_length_moments")
+    from sa.defuse import ReachingDefs
+    rd = ReachingDefs(f.node)
+    excl = [p.name for p in f.params if "exclude" in p.name]
+    ucs = [c for c in own_calls(f.node) if isinstance(c.func, ast.Attribute) and c.func.attr == "unique_consecutive"]
+    if len(ucs) != 1 or len(excl) != 1:
+        col.undecided(f"{rel}::_print_torch_ali_data_dir_length_moments: run-length computation not recognised")
+        return
+    dep = rd.derives(ucs[0].func.value).params()
+    col.ob("G16", "S8", f"{rel}::_print_torch_ali_data_dir_length_moments::runs-of-the-stored-alignment", excl[0] not in dep,
+           f"`{u(ucs[0])[:60]}` computes the runs of a tensor that already depends on `{excl[0]}`: removing excluded frames before "
+           f"forming runs joins the segments on both sides of an excluded stretch (3 3 3 sil sil 3 3 3 counts as one segment of "
+           f"length 6); whole runs must be dropped after they are formed", rel, ucs[0].lineno)
+
+
 def _mutants():
     from selftest.mutate import Mutant as M
     C = "command_line.py"
     return [
+        M("cursor-advances-after-a-removal", "command_line.py", "                raise ValueError(msg)\n        else:\n            idx += 1\n    assert len(ref_transcripts) == len(hyp_transcripts)", "                raise ValueError(msg)\n        idx += 1\n    assert len(ref_transcripts) == len(hyp_transcripts)", "delete-at-cursor-keeps-the-cursor"),
+        M("excluded-frames-dropped-before-the-runs", "command_line.py", "    counts, lens = x.unique_consecutive(return_counts=True)\n    if exclude_ids is not None:\n        not_excluded = (counts.unsqueeze(1) != exclude_ids).all(1)\n        lens = lens[not_excluded]", "    if exclude_ids is not None:\n        not_excluded = (x.unsqueeze(1) != exclude_ids).all(1)\n        x = x[not_excluded]\n    _, lens = x.unique_consecutive(return_counts=True)", "runs-of-the-stored-alignment"),
+        M("missing-test-reads-the-id-column", "command_line.py", "if (ref[:, 1:] < 0).any():\n        raise ValueError(f'{err_msg} some token boundaries missing')", "if (ref < 0).any():\n        raise ValueError(f'{err_msg} some token boundaries missing')", "sign-test-reads-the-boundary-columns"),
         M("length-from-missing-boundaries", "command_line.py", "elif has_segment_index and ref.size(0) and (ref[..., 1:] >= 0).any():", "elif has_segment_index:", "inferred-length-is-not-the-missing-marker"),
         M("per-utt-rate-divides-by-empty-reference", "command_line.py", "error_rates[utt_id] = er.item() / denom if denom else float(er.item() > 0)", "error_rates[utt_id] = er.item() / denom", "per-utterance-length-divisor-guarded"),
         M("id-slice-negative-zero", "command_line.py", "x[fpl:len(x) - fsl]", "x[fpl:-fsl]", "no-negative-zero-slice-bound"),
